@@ -289,6 +289,7 @@ func c03RunSchedule(r *core.Run, sc c03Scen, prefix []string, pickFn func(int, [
 	}
 	s := sched.New(prefix)
 	s.Pick = pickFn
+	s.ParkAfter = true
 	s.Hub = env.Hub
 	if sc.watcher {
 		s.GateBackground(ws[0].Name)
@@ -345,6 +346,9 @@ func c03RunSchedule(r *core.Run, sc c03Scen, prefix []string, pickFn func(int, [
 	if !ok {
 		if s.TimedOut || s.Deadlock {
 			r.Inconclusive("scheduler watchdog")
+		}
+		if s.Infeasible {
+			r.Inconclusive("infeasible schedule prefix (non-deterministic enabled set)")
 		}
 		return res, out, false
 	}
@@ -430,6 +434,9 @@ func c03Schedules(r *core.Run) {
 				nt = true
 			}
 			r.Eval(sig, nt)
+			if os.Getenv("VERIF_DEBUG_SCHED") != "" {
+				fmt.Fprintf(os.Stderr, "SCHED %s | %s | %v\n", sc.name, out.schedule, out.results)
+			}
 			c03Judge(r, sc, out, sig)
 			r.Sample(tag, map[string]any{"schedule": out.schedule, "results": out.results, "trace": out.trace})
 			return res
